@@ -40,6 +40,7 @@ func init() {
 	ruleText["R04.10"] = "every reflect.Value.Set of a result in the closures of _append and appendSlice has an argument built by reflect.Append or reflect.AppendSlice (the operand itself only for append(s) without appended values)"
 	ruleText["R04.12"] = "same analysis as C01/R01.20 (a slice, map or channel value is created at each evaluation of its expression, never once per generated closure)"
 	ruleText["R04.13"] = "in the closures of assign, a frame slot replaced by reflect.New(T).Elem() inside a loop over several destinations lies under a test of node.redeclared, and cfg sets node.redeclared in its assignment case"
+	ruleText["R04.14"] = "= R01.15 shared, both directions: a whole operand becomes the variadic parameter only for f(s...), and for f(s...) the parameter is the operand itself (shared backing array), never a copy built with reflect.Append/AppendSlice"
 	ruleText["R04.11"] = "same analysis as C01/R01.14 (the assign operation is skipped by cfg for single assignments only)"
 	ruleText["R04.7"] = "same analysis as C01/R01.8 (result stored on every path of the run-time closure)"
 }
@@ -77,6 +78,7 @@ func runC04(c *Config, r *Report) {
 	c04R10(ic, r)
 	c01R14(ic, r, "R04.11")
 	c04R13(ic, r)
+	c07R14(ic, r, "R04.14")
 	{
 		sub := newReport("C01")
 		c01R20(ic, sub)
